@@ -211,12 +211,16 @@ def _make_composite_graph(
     temperatures = _column_to_list(data, PT.T.value)
     segments: List[dict] = []
     for stream_loc, col_key in zip(stream_types, col_keys):
+        x_column = _column_to_list(data, col_key)
+        if all(x is None or x != x for x in x_column):
+            # column never populated (e.g. balanced curves switched off): nothing to draw
+            continue
         segments.extend(
             _graph_cc(
                 key,
                 stream_loc,
                 temperatures,
-                _column_to_list(data, col_key),
+                x_column,
                 include_arrows=include_arrows,
                 decolour=decolour,
             )
